@@ -243,6 +243,11 @@ func (e *c15Env) runOp(op C15Op, idx int, trace *[]string, v *Verdict) bool {
 	}
 	tr := fsx.RunTraced(e.proj, e.env(), e.argv(), inj, filepath.Join(e.root, fmt.Sprintf("run%d.log", idx)))
 	v.Evals++
+	if tr.Err != nil && !tr.Killed {
+		// strace itself failed or was stopped by the watchdog: nothing can be concluded
+		e.c.Rep.Discard("trace-run-error")
+		return true
+	}
 	after := e.snapshot()
 	// what was actually hit?
 	hit := -1
